@@ -15,7 +15,7 @@ from .validators import crc16_reference
 
 PROP = "C07"
 
-VARIANTS = ("exact", "minus1", "plus1", "other_request", "symbolic", "stale_tail")
+VARIANTS = ("exact", "minus1", "plus1", "other_request", "symbolic", "stale_tail", "exact_sym", "stale_next_request")
 
 
 def aa55_response(payload: bytes, rtype=(0x01, 0x89)):
@@ -32,6 +32,8 @@ class Fragments(Harness):
 
     def _make(self, M):
         tcp = self.framing == "tcp"
+        if self.variant == "stale_next_request":
+            self.count = 7 if tcp else 5
         if self.framing == "aa55":
             inv = M.es.ES("10.0.0.1", 8899, 0, self.T, self.retries)
             cmd = inv._READ_DEVICE_SETTINGS_DATA
@@ -40,6 +42,30 @@ class Fragments(Harness):
             cmd = inv._read_command(35100, self.count)
         inv.set_keep_alive(self.keep_alive)
         return inv, cmd
+
+    def good_sym(self, M, script, data):
+        """the unsplit answer with an arbitrary (symbolic) register payload"""
+        pl = script.sym_bytes("payload", 2 * self.count)
+        n = 2 * self.count
+        if self.framing == "aa55":
+            head = SBytes(list(bytes([0xAA, 0x55, 0x7F, 0xC0, 0x01, 0x89, n]))) + SBytes.of(pl) if not isinstance(pl, bytes) else \
+                bytes([0xAA, 0x55, 0x7F, 0xC0, 0x01, 0x89, n]) + pl
+            total = 0
+            for b in (head.items if hasattr(head, "items") else head):
+                total = total + b
+            if isinstance(total, int):
+                return bytes(head) + total.to_bytes(2, "big")
+            return head + SBytes([(total // 256) % 256, total % 256])
+        if self.framing == "tcp":
+            return SBytes.of(bytes(data[0:2]) + bytes([0, 0, 0, n + 3, data[6], 3, n])) + SBytes.of(pl) if not isinstance(pl, bytes) \
+                else bytes(data[0:2]) + bytes([0, 0, 0, n + 3, data[6], 3, n]) + pl
+        core = bytes([data[0], 3, n])
+        if isinstance(pl, bytes):
+            c = crc16_reference(core + pl)
+            return b"\xaa\x55" + core + pl + bytes([c & 255, c >> 8])
+        body = SBytes.of(core) + SBytes.of(pl)
+        c = M.modbus._modbus_checksum(body)
+        return SBytes.of(b"\xaa\x55") + body + SBytes([c % 256, c // 256])
 
     def good(self, data, reg_shift=0):
         if self.framing == "aa55":
@@ -70,7 +96,9 @@ class Fragments(Harness):
 
             def on_send(sock, data, n):
                 data = bytes(data)
-                good = self.good(data)
+                if self.variant == "stale_next_request":
+                    return self._stale_next(M, script, loop, world, sock, data, n, obs)
+                good = self.good_sym(M, script, data) if self.variant == "exact_sym" else self.good(data)
                 L = len(good)
                 if n == 0:
                     s = script.small("split", lo, L - 1)
@@ -82,7 +110,7 @@ class Fragments(Harness):
                     if v == "stale_tail":
                         return 0
                     rem = good[s:]
-                    if v == "exact":
+                    if v in ("exact", "exact_sym"):
                         p2 = rem
                     elif v == "minus1":
                         p2 = rem[:-1]
@@ -119,7 +147,43 @@ class Fragments(Harness):
             obs.tx = list(world.transmissions)
             obs.outcome = TR.classify(M, obs.exc) if obs.abort is None else obs.abort
             obs.raw = obs.result.raw_data if obs.result is not None else None
+            obs.second = None
+            if self.variant == "stale_next_request" and obs.abort is None:
+                # the next request on the same object: its complete, conforming answer is exactly as long as the tail
+                # the first request never received
+                cmd2 = inv._read_command(35200, 2)
+                n0 = len(world.transmissions)
+                b = {"outcome": None, "raw": None, "good": None}
+                try:
+                    r2 = vworld.run(loop, inv._read_from_socket(cmd2))
+                    b["outcome"], b["raw"] = "response", r2.raw_data
+                except (vworld.Hang, vworld.LiveLock) as e:
+                    b["outcome"] = type(e).__name__
+                except Exception as e:  # noqa: BLE001
+                    b["outcome"] = TR.classify(M, e)
+                b["ntx"] = len(world.transmissions) - n0
+                b["good"] = obs.pieces.get("good2")
+                obs.second = b
         return obs
+
+    def _stale_next(self, M, script, loop, world, sock, data, n, obs):
+        tcp = self.framing == "tcp"
+        good = TR.valid_response(tcp, data)
+        reg = int.from_bytes(data[8:10] if tcp else data[2:4], "big")
+        if reg == 35100:
+            k = sum(1 for x in world.transmissions[:-1])
+            if k == 0:
+                # first answer: only a leading fragment arrives; what is missing is as long as the next request's answer
+                L2 = len(TR.valid_response(tcp, bytes(data[:10]) + (2).to_bytes(2, "big") if tcp else data[:4] + (2).to_bytes(2, "big") + b"\0\0"))
+                s = len(good) - L2
+                obs.pieces = {"good": good, "s": s, "p1": good[:s], "d": 0}
+                loop.call_later(0, lambda: (not sock.closed) and sock.rx.append(good[:s]))
+            else:
+                loop.call_later(script.delay(1, "d", hi=1), lambda: (not sock.closed) and sock.rx.append(good))
+        else:
+            obs.pieces["good2"] = good
+            loop.call_later(0, lambda: (not sock.closed) and sock.rx.append(good))
+        return 0
 
     def verdict(self, obs, check, fail):
         P = obs.pieces
@@ -128,7 +192,15 @@ class Fragments(Harness):
         if obs.abort is not None:
             fail("request did not terminate", obs.abort)
         good, p1 = P["good"], P["p1"]
-        if v == "exact":
+        if v == "stale_next_request":
+            b = obs.second
+            if b is None:
+                return
+            if not (b["outcome"] == "response" and b["ntx"] == 1 and _bytes_eq(b["raw"], b["good"]) is True):
+                fail("a conforming unfragmented answer to the next request was not delivered at once (stale fragment state)",
+                     f"{b['outcome']} after {b['ntx']} transmission(s)")
+            return
+        if v in ("exact", "exact_sym"):
             # both pieces within the timeout => success without retransmission, exactly the unsplit response
             in_time = _lt(P["d"] + P["e"], T)
             if in_time is True or (in_time is not False and self._feasible(in_time)):
@@ -190,7 +262,16 @@ class Fragments(Harness):
 
     def symbolic(self, ex):
         G = shimmed()
-        G.modbus._modbus_checksum = TR.hybrid_crc(G.orig_checksum)
+        if self.variant == "exact_sym":
+            from .c08 import FunctionalCrc
+            fc, orig = FunctionalCrc(), G.orig_checksum
+
+            def crc(data):
+                items = list(data.items) if hasattr(data, "items") and not isinstance(data, dict) else list(data)
+                return orig(bytes(items)) if all(isinstance(b, int) for b in items) else fc(data)
+            G.modbus._modbus_checksum = crc
+        else:
+            G.modbus._modbus_checksum = TR.hybrid_crc(G.orig_checksum)
         script = TR.SymScript([], self.T)
         obs = self._run(G, script)
 
@@ -263,8 +344,10 @@ def tasks(tier, seed):
         for ka in (False, True):
             for c in counts:
                 for v in VARIANTS:
-                    if v == "symbolic" and framing == "rtu":
+                    if v in ("symbolic", "exact_sym") and framing == "rtu":
                         continue   # a symbolic remainder under an uninterpreted CRC may 'pass' by collision: AA55 and TCP cover it
+                    if v == "stale_next_request" and (framing == "aa55" or c != counts[0]):
+                        continue
                     ts.append({"name": f"frag-{framing}-{ka}-{c}-{v}", "framing": framing, "ka": ka, "count": c, "variant": v})
     return ts
 
@@ -288,7 +371,7 @@ def evidence_meta(tier):
                 "stale-tail scenario (first fragment only, tail delivered for the retransmission)",
         "bounds": {"framings": "Modbus RTU/UDP, Modbus/TCP, AA55/UDP", "keep_alive": "on/off", "counts": "2 (quick) / 1,2,7,61 (thorough)",
                    "delays": "0..2T+1 ticks each (symbolic), T=3", "retries": 1},
-        "outside": ["more than two fragments", "symbolic remainder on Modbus RTU (CRC uninterpreted on symbolic data: a "
+        "outside": ["more than two fragments", "symbolic payload / symbolic remainder on Modbus RTU (CRC uninterpreted on symbolic data: a "
                     "'passing' foreign remainder would be a 2^-16 collision artefact); the AA55 additive checksum is executed "
                     "exactly"],
         "assumptions": ["'within the timeout' = the second piece arrives less than T ticks after the transmission"],
